@@ -245,8 +245,26 @@ impl Exec for TlvViewExec {
                 let (Some(d), Some(lookups)) = (from_hex(hex), parse_u32_list(lk)) else { return StepOut::bad() };
                 let mut so = StepOut::default();
                 let (o, v, _) = view_obs(&d, &lookups, &mut so.tags);
+                // The result must not depend on where the bytes live: repeat on copies placed at every
+                // alignment of an 8-byte-aligned buffer and require identical observations.
+                let mut backing: Vec<u64> = vec![0u64; d.len() / 8 + 3];
+                let base = backing.as_mut_ptr() as *mut u8;
+                for shift in 1..8usize {
+                    let shifted: &mut [u8] = unsafe { std::slice::from_raw_parts_mut(base.add(shift), d.len()) };
+                    shifted.copy_from_slice(&d);
+                    let mut tags2 = Vec::new();
+                    let r = std::panic::catch_unwind(std::panic::AssertUnwindSafe(|| view_obs(shifted, &lookups, &mut tags2)));
+                    match r {
+                        Ok((o2, _, _)) if o2 == o => {}
+                        Ok(_) => so.violations.push(format!(
+                            "C12 MessageView behaves differently on the same bytes at address offset {} mod 8 than on an aligned copy",
+                            shift
+                        )),
+                        Err(_) => so.violations.push(format!("C12 MessageView panicked on a copy of the bytes at address offset {} mod 8", shift)),
+                    }
+                }
                 so.obs = o;
-                so.violations = v;
+                so.violations.extend(v);
                 so
             }
             _ => StepOut::bad(),
